@@ -18,9 +18,10 @@ CLAIMED = {
         "a Flip object ends after complete with exactly the names the residue had before (no *FLIP copy left, nothing lost or doubled, and finalize never hits remove_atom's KeyError); an Alcoholic object ends with the original names plus the polar hydrogen once and no LP* "
         "(given 1-3 atoms bonded to the oxygen - shown necessary, and checked at every real finalize); a Water ends with its names plus H1 and H2 once each and no LP*; a protonated carboxyl group (Carboxylic on ASH / GLH: doubled candidates, elimination, renaming, O-swap through the temporary name FLIP) ends with exactly OD1, OD2, HD2 (OE1, OE2, HE2) and everything else untouched, for every construction order and outcome sequence (closure table checked by the kernel, lifted to any residue by a simulation argument); cleanup removes the doubled carboxylic proton exactly when both are present; "
         "one residue through repair_heavy: every heavy atom of the reference present afterwards, every input atom kept or reported deleted, atoms the reference knows always kept, no duplicates; one residue through add_hydrogens: with every placement succeeding no reference hydrogen missing (except HG of a bridged cysteine), nothing removed, only reference hydrogens added; "
-        "found and missing atoms of apply_force_field are together a permutation of all atoms (from C01). Tie: trace replay - every method call on the real Flip/Alcoholic/Water objects and cleanup is logged with the residue's name list before/after, return value, fixed flag and bond count, and replayed in the model. "
+        "the COMPOSITION of the stages on one residue (Model/Stages.lean over the apply_patch model and the generated topology): terminus patches; repair_heavy; CYX / pKa-state patches and remove_hydrogens; add_hydrogens - whatever atoms the input residue held, in any order, with any extras, it ends with exactly the atoms of its final run-time reference, each once (stages_exact, stages_exact_norepair), no heavy atom disappears without a report (stages_accounted, early_keeps); the data hypotheses are discharged on this run's topology by kernel-checked tables (stages_exact_on_data); "
+        "found and missing atoms of apply_force_field are together a permutation of all atoms (from C01). Tie: the stage sequence of EVERY residue of every run is replayed in the model on the model's own state (names and reference after every stage must agree, and nothing else may change a residue between those stages); trace replay - every method call on the real Flip/Alcoholic/Water objects and cleanup is logged with the residue's name list before/after, return value, fixed flag and bond count, and replayed in the model. "
         "Oracle on real runs: final names of every fully parameterised residue (no duplicate, no LP*/...FLIP, exactly the atom set of its run-time reference or of the definition its final state is named after, one carboxylic proton); every input heavy atom of a recognised residue kept exactly once unless its deletion was reported; found U missing = all, PQR lines = found.",
-        note="partial: the neutral-C-terminus variant of Carboxylic, patch application and the composition of the stages are covered by the final-state oracle on the runs made, not by theorems; no nucleic-acid structure offline (5'-phosphate removal not exercised)",
+        note="partial: the neutral-C-terminus variant of Carboxylic and the retry order inside repair_heavy are covered by the final-state oracle on the runs made, not by theorems; which residue gets which patch is modelled under C02/C06/C13; no nucleic-acid structure offline (5'-phosphate removal not exercised)",
         ref="DESIGN.md §4 C03",
     ),
     "C04": dict(
@@ -68,7 +69,7 @@ CLAIMED = {
     "C12": dict(
         text="Lean theorems kernel-checked over the regenerated call skeleton of main.py and the inventory of every write-open in the package: the output PQR path is opened for writing in exactly one place (print_pqr); print_pqr is called once, "
         "after every argument check, file lookup, parse, set-up and compute stage, and only the optional PDB/APBS writers follow it; non_trivial never sees the output path; the charge guard precedes naming and line generation; checks come first; "
-        "charge_guard_spec (over Q, model run in Float against the real noninteger_charge): a total passes the guard exactly when it is within the tolerance of some integer. "
+        "charge_guard_spec (over Q, model run in Float against the real noninteger_charge): a total passes the guard exactly when it is within the tolerance of some integer; repair_gate_spec: is_repairable lets a structure through to repair exactly when something is missing and at most one tenth of the heavy atoms (model compared with the real function on counts around the limit, and with the decision observed in runs on peptides whose missing count straddles the limit). "
         "Oracle: fault injection into EVERY stage of that generated skeleton on the real code x {ValueError, RuntimeError} x output path {absent, pre-existing with sentinel content and mtime}; eleven natural failure triggers; "
         "hydrogen-free peptides under --assign-only and CA traces (totals that cannot be integral) must fail and leave the path alone or write an integral total; "
         "success side: side-chain-complete peptides with each residue type forced in turn x six force fields, and PARSE with --neutraln/--neutralc at each residue type (PEOEPB terminal gaps, PARSE neutral C-terminal PRO and the non-raising is_repairable are known findings).",
